@@ -390,12 +390,52 @@ func (c *Ctx) c02OnOff() error {
 		"func f() int { m := map[float64]int{}; m[3000000000] = 7; k := float64(3000000000); return m[k] }; y := f(); y",
 		"func f() float64 { z := 0.0; z = -z; w := z - 0; return 1 / w }; y := f(); y",
 		"func f() float64 { z := 0.0; z = -z; z -= 0; v := z + 0; return 1/z + 1/v }; y := f(); y",
+		// the constant of PUSH k; SUB at the ends of the operand's range (the smallest int has no negation)
+		"func f(x float64) float64 { return x - -9223372036854775808 }; y := f(1); y", "func f(x float64) float64 { x -= -9223372036854775808; return x }; y := f(1); y",
+		"func f(x float64) float64 { return x - 9223372036854775807 }; y := f(1); y", "func f(x float64) float64 { return x - -9223372036854775807 }; y := f(1); y",
 		// failures inside fused windows of statements wrapped over several lines: the same line in both modes
 		"func f(a, b int) int {\n\tq := a /\n\t\tb\n\treturn q\n}\ny := f(7, 0)\ny",
 		"func f(xs []int, i int) int {\n\treturn xs[\n\t\t7]\n}\ny := f([]int{1}, 0)\ny",
 		"func f(m map[string]int) int {\n\tm[\n\t\t\"a\"] = 1\n\treturn 1\n}\nvar nm map[string]int\ny := f(nm)\ny",
 		"type T struct {\n\tF func(int) int\n}\nfunc f(t *T) int {\n\treturn t.\n\t\tF(1)\n}\ny := f(&T{})\ny",
 		"func f(xs []int) int {\n\txs[\n\t\t7]++\n\treturn 1\n}\ny := f([]int{1})\ny",
+	}
+	// the same faulting statements with a line break after every token that allows one (one break at a time, and all
+	// at once): wherever the statement is wrapped, both modes report the same line
+	for _, st := range []string{
+		"r = p . add ( 1 , 2 )", "r = nf ( 1 , 2 )", "r = xs [ 7 ] + 1", "xs [ 7 ] = 1 + 2", "mp [ \"a\" ] = 1 + 2", "p . A = 3 + 4", "r = p . A + 1",
+		"r = a / ( a - a )", "r %= ( a - a )", "xs [ 7 ] += 2 + a", "r = t . F ( 1 , 2 )", "r = add3 ( 1 , xs [ 7 ] , 3 )", "r = p . add ( xs [ 0 ] , 2 )", "r = s [ 5 ] + 1",
+	} {
+		toks := strings.Fields(st)
+		var breaks []int
+		for i, t := range toks[:len(toks)-1] {
+			switch t {
+			case ":=", "=", "+", "-", "/", "%=", "+=", "(", "[", ",", ".":
+				breaks = append(breaks, i)
+			}
+		}
+		variants := [][]int{nil, breaks}
+		for _, b := range breaks {
+			variants = append(variants, []int{b})
+		}
+		for _, v := range variants {
+			var sb strings.Builder
+			for i, t := range toks {
+				sb.WriteString(t)
+				brk := false
+				for _, b := range v {
+					brk = brk || b == i
+				}
+				switch {
+				case brk:
+					sb.WriteString("\n\t\t")
+				case i+1 < len(toks) && t != "." && t != "(" && t != "[" && toks[i+1] != "." && toks[i+1] != "(" && toks[i+1] != "[" && toks[i+1] != ")" && toks[i+1] != "]" && toks[i+1] != ",":
+					sb.WriteString(" ")
+				}
+			}
+			corpus = append(corpus, "type T struct {\n\tA int\n\tF func(int, int) int\n}\nfunc (t *T) add(a int, b int) int {\n\treturn t.A + a + b\n}\nfunc add3(a int, b int, c int) int {\n\treturn a + b + c\n}\nfunc f(a int) int {\n\tvar p *T\n\tvar nf func(int, int) int\n\tvar mp map[string]int\n\txs := []int{1, 2}\n\ts := \"ab\"\n\tt := &T{}\n\tr := 0\n\tif a < 0 {\n\t\tprintln(p, nf, mp, xs, s, t, r)\n\t}\n\t"+sb.String()+"\n\treturn r\n}\ny := f(3)\ny")
+			c.Rep.Count("onoff-wrapped-fault")
+		}
 	}
 	inputs = append(corpus, inputs...)
 	nprog := 400
